@@ -53,6 +53,10 @@ pub struct Qcow2Dev<T> {
     // written before it is still not ordered against anything written
     // later, so the barrier is repeated before the next meta data write.
     barrier_failed: AtomicBool,
+    // Meta data has been written and no barrier over the whole file has
+    // completed since (an eviction write-back doesn't sync, nor does the
+    // last reftable block write of another task's flush).
+    meta_unsynced: AtomicBool,
     flush_lock: AsyncMutex<()>,
 
     // Serializes write-back of refcount meta. The dirty flag of a slice is
@@ -132,6 +136,7 @@ impl<T: Qcow2IoOps> Qcow2Dev<T> {
             new_cluster: AsyncRwLock::new(Default::default()),
             need_flush: AtomicBool::new(false),
             barrier_failed: AtomicBool::new(false),
+            meta_unsynced: AtomicBool::new(false),
             flush_lock: AsyncMutex::new(()),
             refcount_wb_lock: AsyncMutex::new(()),
             data_io_gate: AsyncRwLock::new(()),
